@@ -152,3 +152,37 @@ func VH_C15_NewUserThenAuthenticate() {
 		vAssert("cannot_log_in_with_other_password", !cc.Authenticate("eve", other))
 	}
 }
+
+// Batched update-user: entries are independent - [delete amy, modify bob] deletes exactly amy and updates exactly bob.
+func VH_C15_BatchedUpdateEntriesIndependent() {
+	srv, cc := vNewServer()
+	cc.Account.Access = hotline.AccessBitmap{0xff, 0xff, 0xff, 0xff, 0xff, 0xff, 0xff, 0xff}
+	am := &vStubAM{getResult: &hotline.Account{Login: "bob", Name: "Bob", Password: "H:old"}}
+	srv.AccountManager = am
+	obf := func(s string) []byte {
+		b := []byte(s)
+		for i := range b {
+			b[i] = 255 - b[i]
+		}
+		return b
+	}
+	del := append([]byte{0, 1}, vSubField(hotline.FieldData, obf("amy"))...)
+	mod := []byte{0, 3}
+	mod = append(mod, vSubField(hotline.FieldUserLogin, obf("bob"))...)
+	mod = append(mod, vSubField(hotline.FieldUserName, []byte("Robert"))...)
+	mod = append(mod, vSubField(hotline.FieldUserPassword, []byte{0})...)
+	order := vBool("delete_first")
+	var fields []hotline.Field
+	if order {
+		fields = []hotline.Field{f(hotline.FieldData, del), f(hotline.FieldData, mod)}
+	} else {
+		fields = []hotline.Field{f(hotline.FieldData, mod), f(hotline.FieldData, del)}
+	}
+	t := hotline.NewTransaction(hotline.TranUpdateUser, cc.ID, fields...)
+	res := HandleUpdateUser(cc, &t)
+	vAssert("batch_ok_reply", len(res) >= 1 && !vIsErrReply(res[len(res)-1:]))
+	vAssert("batch_deletes_exactly_amy", len(am.deleted) == 1 && am.deleted[0] == "amy")
+	vAssert("batch_updates_exactly_bob", len(am.updated) == 1 && am.updated[0].Login == "bob" && am.updatedNew[0] == "bob" && am.updated[0].Name == "Robert")
+	vAssert("batch_password_marker_keeps_password", len(am.updated) == 1 && am.updated[0].Password == "H:old")
+	vAssert("batch_creates_nothing", len(am.created) == 0)
+}
